@@ -4,9 +4,11 @@ import (
 	"fmt"
 	"go/ast"
 	"go/types"
+	"regexp"
 	"strconv"
 	"strings"
 
+	"verif/vp/gen"
 	"verif/vp/tc"
 )
 
@@ -217,19 +219,9 @@ func C10(x *Ctx) []Violation {
 	return vs
 }
 
-var sanitiser = strings.NewReplacer("go-", "", "-go", "", "-", "", "_", "", ".", "", "@", "", "+", "", "~", "")
+var sanitiser = gen.Sanitiser
 
-// suffixNames lists every name a conflict resolution by "concatenate trailing path components" could produce for a path.
-func suffixNames(path string) []string {
-	parts := strings.Split(path, "/")
-	var out []string
-	name := ""
-	for i := len(parts) - 1; i >= 0; i-- {
-		name = strings.ToLower(sanitiser.Replace(parts[i])) + name
-		out = append(out, name)
-	}
-	return out
-}
+func suffixNames(path string) []string { return gen.SuffixNames(path) }
 
 // sourceAliases collects, from the world's own source files, path -> set of aliases (not . or _).
 func sourceAliases(w *tc.World) map[string]map[string]bool {
@@ -249,19 +241,46 @@ func sourceAliases(w *tc.World) map[string]map[string]bool {
 	return out
 }
 
+var importLineRe = regexp.MustCompile(`(?m)^[ \t]*(?:([^ \t"]+)[ \t]+)?"([^"]+)"[ \t]*$`)
+
+// importBlock cuts the text of the first import ( ... ) block.
+func importBlock(src string) string {
+	i := strings.Index(src, "import (")
+	if i < 0 {
+		return ""
+	}
+	j := strings.Index(src[i:], "\n)")
+	if j < 0 {
+		return src[i:]
+	}
+	return src[i+len("import (") : i+j]
+}
+
 // C11: the import block is exact, canonical and conflict-free.
 func C11(x *Ctx) []Violation {
 	if !x.Accepted() {
 		return nil
 	}
 	d := x.Dest()
-	if d.File == nil || d.Info == nil {
-		x.Note("prerequisite_failed")
-		return nil
-	}
 	var vs []Violation
 	bad := func(oracle, format string, a ...any) {
 		vs = append(vs, Violation{"C11", oracle, fmt.Sprintf(format, a...)})
+	}
+	if d.ParseErr != nil {
+		// the file does not parse (seen through -fmt noop): judge the import block lexically
+		for _, m := range importLineRe.FindAllStringSubmatch(importBlock(string(x.Judged)), -1) {
+			if q := m[1]; q != "" && q != "." && q != "_" && !isValidIdent(q) {
+				bad("qualifier-valid", "package %q is imported under the qualifier %q, which is not a valid identifier", m[2], q)
+			}
+		}
+		if len(vs) == 0 {
+			x.Note("prerequisite_failed")
+		}
+		return vs
+	}
+	if d.File == nil || d.Info == nil {
+		x.Note("prerequisite_failed")
+		return nil
 	}
 	imps := imports(d)
 	seenPath := map[string]bool{}
